@@ -189,10 +189,43 @@ def near_misses(rng):
     b2 = b"AIVDM,1,1,,A,1"
     out.append(b"!" + b2 + b"*" + (b"%02X" % ais.xor_all(b2)) + b",0*" + (b"%02X" % ais.xor_all(b2)))
     out.append(b"!AIVDM,1,1,,A,1*FF,0*0B")
+    out += field_surgery(rng, p, f)
+    # an escape at the very start of the payload (the sentence-level type is read there) and alone in a fragment
+    for esc in (b"^41", b"^40", b"^30", b"^7F", b"^00", b"^5e", b"^"):
+        out += [S(esc + p, **base), S(esc + p[:6], nf=2, fn=1, mid=4, fill=0), S(esc, **base)]
     out += numeric_extremes(rng, p, f)
     out += numeric_spellings(rng, p, f)
     out += padding_variants(rng, p, f)
     out += utf8_lines(rng, 12)
+    return out
+
+
+def field_surgery(rng, p=None, f=0):
+    """Whole-field edits of a valid sentence, the checksum recomputed: each of the seven comma-separated fields removed
+    (with its comma), emptied, doubled, and swapped with its neighbour; an empty field inserted at every position - for
+    an unfragmented sentence, a first fragment with an id and one without.  Seven fields in this order is the grammar:
+    a line with six or eight is not a sentence, whichever field a lenient reader would guess is missing."""
+    if p is None:
+        p, f = gen.valid_message_payload(rng, 1)
+    out = []
+    for good in (ais.sentence(p, fill=f), ais.sentence(p, fill=f, channel=b""), ais.sentence(p[:9], nf=2, fn=1, mid=3, fill=0),
+                 ais.sentence(p[:9], nf=2, fn=1, mid=None, fill=0), ais.sentence(p, fill=f, mid=5, channel=b"B")):
+        body = good[1:good.index(b"*")]
+        fields = body.split(b",")
+        variants = []
+        for i in range(len(fields)):
+            variants.append(fields[:i] + fields[i + 1:])
+            variants.append(fields[:i] + [b""] + fields[i + 1:])
+            variants.append(fields[:i] + [fields[i], fields[i]] + fields[i + 1:])
+            variants.append(fields[:i] + [b""] + fields[i:])
+            if i + 1 < len(fields):
+                variants.append(fields[:i] + [fields[i + 1], fields[i]] + fields[i + 2:])
+        variants.append(fields + [b""])
+        variants.append(fields + [b"0"])
+        variants.append(fields[:5] + fields[6:] + [fields[5]])
+        for v in variants:
+            b2 = b",".join(v)
+            out.append(good[:1] + b2 + b"*%02X" % ais.xor_all(b2))
     return out
 
 
@@ -345,6 +378,10 @@ class C08(SentProp):
             ops += ["N 0", L(ais.sentence(big, fill=0), dec=0)]
         yield ("long-lines", ops)
 
+    def extra_run(self, rep, tier, cfgs):
+        from .props_hist import C20
+        C20().tool_pass(rep, "C08")
+
     def judge(self, rep, cfg, label, ops, impl, model):
         for op, a, m in zip(ops, impl, model):
             if not op.startswith("L "):
@@ -437,6 +474,10 @@ class C02(SentProp):
                 flipped[1 + pos] ^= rng.choice([1, 2, 4, 16, 64])
                 ops += ["N 0", L(bytes(flipped), dec=0)]
         yield ("long-region", ops)
+
+    def extra_run(self, rep, tier, cfgs):
+        from .props_hist import C20
+        C20().tool_pass(rep, "C02")
 
     @staticmethod
     def state_prefix(rng, nf, fn, mid):
@@ -723,6 +764,13 @@ class C19(SentProp):
                 ops += ["N 0", L(varied_sentence(rng, payload, nf=2, fn=1, mid=7, fill=0), 0, 1),
                         L(varied_sentence(rng, b"?03Owo@nwsI0D00", nf=2, fn=2, mid=7, fill=2), 0, 1)]
         yield ("short-payloads", ops)
+        # every grammar near miss: a type is reported for exactly the lines that are sentences, and it is that of the
+        # payload FIELD (the sixth), not of whatever field a lenient reader would take for it
+        ops = []
+        for l in near_misses(rng):
+            if len(l) < 3000:
+                ops += ["N 0", L(l, 0, 0)]
+        yield ("near-misses", ops)
         # the type of a sentence must not depend on what the parser saw before: abandoned groups,
         # delivered groups, middle fragments, tag blocks
         ops = []
